@@ -149,6 +149,8 @@ def comp(kind, elt, src, cond):
             c = SB(c=True)
         else:
             c = truth(cond(x))
+            if isinstance(c, SB) and CTX.notes.get("fork_selections"):
+                c = _b.bool(c)          # the scenario asked for concrete selections: fork on the condition
             if not isinstance(c, SB):
                 c = SB(c=c)
         gg = g & c
@@ -282,8 +284,25 @@ def g_isinstance(obj, cls):
     return isinstance(obj, cls)
 
 
+_MISSING = object()
+
+
+def g_next(it, default=_MISSING):
+    if isinstance(it, GList):
+        for g, v in zip(it.guards, it.items):
+            if _b.bool(g):          # first element whose guard holds (forks on symbolic guards)
+                return v
+        if default is _MISSING:
+            raise StopIteration
+        return default
+    if default is _MISSING:
+        return _b.next(it)
+    return _b.next(it, default)
+
+
 INJECTED = {
     "isinstance": g_isinstance,
+    "next": g_next,
     "min": symnp.py_min,
     "max": symnp.py_max,
     "filter": g_filter,
